@@ -63,6 +63,8 @@ def gen_spec(seed: int, profile: dict = None) -> dict:
         cp = CG.gen_params(st.sub('cp', s), small_lattice=pf.get('small_lattice', False) or st.chance(pf.get('p_small_lattice', 0.15), 'sl', s))
         symbols[s] = cp
     start_ts = START_TS + 86_400_000 * st.randint(0, 300, 'day0')
+    if pf.get('start_ts') is not None:
+        start_ts = int(pf['start_ts'])     # (the draw above is still made: keyed streams do not shift)
     spec = {
         'kind': 'session',
         'seed': seed,
